@@ -150,15 +150,21 @@ pub fn run_c08(args: &Args) -> i32 {
                     }
                 }
                 // (c) each single off-ray square toggled under every ray subset
-                // quick: under every 8th ray subset; thorough: under every ray subset
-                if thorough || k % 8 == 0 {
+                // under EVERY ray subset in both tiers (a stray mask bit can act through a carry for a
+                // handful of subsets only): the answer must not depend on any single off-ray square
+                {
+                    let dirs = if rook { &ROOK_D } else { &BISHOP_D };
                     let mut m = off;
                     while m != 0 {
                         let low = m & m.wrapping_neg();
                         m ^= low;
-                        let d = c08_case(rook, s, occ | low);
                         offray += 1;
-                        report.record(&d, || json!({"kind": "slider", "rook": rook, "square": s, "occupancy": format!("{:#018x}", occ | low)}));
+                        let o = occ | low;
+                        let ok = std::panic::catch_unwind(|| lookup(rook, s, o) == cast(s, dirs, o)).unwrap_or(false);
+                        if !ok {
+                            let d = c08_case(rook, s, o);
+                            report.record(&d, || json!({"kind": "slider", "rook": rook, "square": s, "occupancy": format!("{o:#018x}")}));
+                        }
                     }
                 }
             }
@@ -177,7 +183,7 @@ pub fn run_c08(args: &Args) -> i32 {
         json!({
             "evaluations": cases + offray,
             "distinct_nontrivial": nontrivial,
-            "rule": "for each of 64 squares x {rook, bishop}: every subset of the square's own rays (edge squares included), each with the off-ray squares empty / all occupied and the slider's own square empty / occupied; plus every single off-ray square toggled under the ray subsets (quick: every 8th subset, thorough: every subset) and every pair of off-ray squares occupied together (quick: every 16th subset, thorough: every 2nd). Non-trivial = distinct (piece, square, non-empty ray subset).",
+            "rule": "for each of 64 squares x {rook, bishop}: every subset of the square's own rays (edge squares included), each with the off-ray squares empty / all occupied and the slider's own square empty / occupied; plus every single off-ray square toggled under every ray subset (both tiers) and every pair of off-ray squares occupied together (quick: every 16th subset, thorough: every 2nd). Non-trivial = distinct (piece, square, non-empty ray subset).",
             "ray_subset_cases": cases,
             "single_off_ray_toggles": offray,
             "exhaustive": true,
